@@ -6,7 +6,8 @@ use vx_replay::*;
 struct Rng(u64);
 impl Rng { fn next(&mut self) -> u64 { self.0 ^= self.0 << 13; self.0 ^= self.0 >> 7; self.0 ^= self.0 << 17; self.0 } fn below(&mut self, n: usize) -> usize { (self.next() % n.max(1) as u64) as usize } }
 const NAME_CH: [char; 12] = ['a', 'Z', '_', 'x', 'c', 'o', ' ', '1', '"', '\n', 'é', '-'];
-const ARG_CH: [char; 20] = ['a', 'b', ' ', '\t', '"', '\'', '\\', '\r', '\n', '\0', 'é', '(', ')', '=', '\x0b', '\x1f', '!', '~', '0', '日'];
+// incl. scalars whose LOW BYTE is a quote / apostrophe / backslash (U+0422, U+0127, U+015C, U+4E22): a byte-wise comparison of a char goes wrong on these
+const ARG_CH: [char; 24] = ['a', 'b', ' ', '\t', '"', '\'', '\\', '\r', '\n', '\0', 'é', '(', ')', '=', '\x0b', '\x1f', '!', '~', '0', '日', '\u{422}', '\u{127}', '\u{15c}', '\u{4e22}'];
 fn special(c: char) -> bool { c == '\\' || c == '"' || c == '\'' }
 fn name_valid(n: &str) -> bool { !n.is_empty() && n.chars().next().unwrap().is_ascii_alphabetic() && n.chars().all(|c| c.is_ascii_alphabetic() || c == '_') && !n.starts_with("command_list") }
 fn arg_accepted(a: &str) -> bool { !a.contains('\n') && !a.contains('\0') }
